@@ -1525,29 +1525,103 @@ func pureChanExpr(e ast.Expr) bool {
 // With no engine SelectOrder is empty and the original select decides alone.
 func (r *rewriter) selectPolled(s *ast.SelectStmt) []ast.Stmt {
 	type cs struct {
-		ch   ast.Expr
-		body []ast.Stmt
-		def  bool
+		def    bool
+		body   []ast.Stmt
+		ch     ast.Expr // channel operand as written
+		send   ast.Expr // value sent (send case)
+		assign *ast.AssignStmt
+		tc     string // temporaries: channel, value, received value, ok
+		tv     string
+		tr     string
+		tok    string
 	}
-	var cases []cs
+	var cases []*cs
+	nComm := 0
 	for _, c := range s.Body.List {
 		cc := c.(*ast.CommClause)
 		if cc.Comm == nil {
-			cases = append(cases, cs{def: true, body: cc.Body})
+			cases = append(cases, &cs{def: true, body: cc.Body})
 			continue
 		}
-		es, ok := cc.Comm.(*ast.ExprStmt)
+		nComm++
+		switch st := cc.Comm.(type) {
+		case *ast.ExprStmt:
+			u, ok := isRecv(st.X)
+			if !ok {
+				return nil
+			}
+			cases = append(cases, &cs{ch: u.X, body: cc.Body})
+		case *ast.SendStmt:
+			cases = append(cases, &cs{ch: st.Chan, send: st.Value, body: cc.Body})
+		case *ast.AssignStmt:
+			if len(st.Rhs) != 1 || len(st.Lhs) < 1 || len(st.Lhs) > 2 {
+				return nil
+			}
+			u, ok := isRecv(st.Rhs[0])
+			if !ok {
+				return nil
+			}
+			cases = append(cases, &cs{ch: u.X, assign: st, body: cc.Body})
+		default:
+			return nil
+		}
+	}
+	if nComm == 0 {
+		return nil
+	}
+	// every channel operand and every value to send is evaluated exactly once, in source order, on
+	// entering the select (as the language says); the polls and the blocking select use the temporaries
+	var pre []ast.Stmt
+	elemType := func(ch ast.Expr) ast.Expr {
+		t := r.typeOf(ch)
+		if t == nil {
+			return nil
+		}
+		c, ok := t.Underlying().(*types.Chan)
 		if !ok {
 			return nil
 		}
-		u, ok := isRecv(es.X)
-		if !ok || !pureChanExpr(u.X) {
+		ts, ok := r.typeStr(c.Elem())
+		if !ok {
 			return nil
 		}
-		cases = append(cases, cs{ch: u.X, body: cc.Body})
+		return parseType(ts)
 	}
-	if len(cases) == 0 {
-		return nil
+	for _, c := range cases {
+		if c.def {
+			continue
+		}
+		simple := pureChanExpr(c.ch) && c.send == nil && c.assign == nil
+		if simple {
+			continue // re-evaluating an identifier or a field chain is harmless
+		}
+		if t := r.typeOf(c.ch); t == nil {
+			return nil
+		} else if _, ok := t.Underlying().(*types.Chan); !ok {
+			return nil
+		}
+		c.tc = r.fresh("c")
+		pre = append(pre, &ast.AssignStmt{Lhs: []ast.Expr{id(c.tc)}, Tok: token.DEFINE, Rhs: []ast.Expr{c.ch}})
+		if c.send != nil {
+			et := elemType(c.ch)
+			if et == nil {
+				return nil
+			}
+			c.tv = r.fresh("v")
+			pre = append(pre, &ast.DeclStmt{Decl: &ast.GenDecl{Tok: token.VAR, Specs: []ast.Spec{&ast.ValueSpec{Names: []*ast.Ident{id(c.tv)}, Type: et, Values: []ast.Expr{c.send}}}}})
+		}
+		if c.assign != nil {
+			et := elemType(c.ch)
+			if et == nil {
+				return nil
+			}
+			c.tr, c.tok = r.fresh("r"), r.fresh("ok")
+			pre = append(pre,
+				&ast.DeclStmt{Decl: &ast.GenDecl{Tok: token.VAR, Specs: []ast.Spec{&ast.ValueSpec{Names: []*ast.Ident{id(c.tr)}, Type: et}}}},
+				&ast.DeclStmt{Decl: &ast.GenDecl{Tok: token.VAR, Specs: []ast.Spec{&ast.ValueSpec{Names: []*ast.Ident{id(c.tok)}, Type: id("bool")}}}},
+				&ast.AssignStmt{Lhs: []ast.Expr{id("_"), id("_")}, Tok: token.ASSIGN, Rhs: []ast.Expr{id(c.tr), id(c.tok)}},
+			)
+		}
 	}
 	site := r.site("select", s.Pos())
 	h := r.fresh("h")
@@ -1556,25 +1630,30 @@ func (r *rewriter) selectPolled(s *ast.SelectStmt) []ast.Stmt {
 	setSel := func(i int) ast.Stmt {
 		return &ast.AssignStmt{Lhs: []ast.Expr{id(sel)}, Tok: token.ASSIGN, Rhs: []ast.Expr{intLit(i)}}
 	}
-	recv := func(ch ast.Expr) ast.Stmt {
+	comm := func(c *cs) ast.Stmt {
+		ch := c.ch
+		if c.tc != "" {
+			ch = id(c.tc)
+		}
+		switch {
+		case c.send != nil:
+			return &ast.SendStmt{Chan: ch, Value: id(c.tv)}
+		case c.assign != nil:
+			return &ast.AssignStmt{Lhs: []ast.Expr{id(c.tr), id(c.tok)}, Tok: token.ASSIGN, Rhs: []ast.Expr{&ast.UnaryExpr{Op: token.ARROW, X: ch}}}
+		}
 		return &ast.ExprStmt{X: &ast.UnaryExpr{Op: token.ARROW, X: ch}}
 	}
 	// polling switch
 	var pollCases []ast.Stmt
-	nRecv := 0
 	for i, c := range cases {
 		if c.def {
 			continue
 		}
-		nRecv++
 		one := &ast.SelectStmt{Body: &ast.BlockStmt{List: []ast.Stmt{
-			&ast.CommClause{Comm: recv(c.ch), Body: []ast.Stmt{setSel(i)}},
+			&ast.CommClause{Comm: comm(c), Body: []ast.Stmt{setSel(i)}},
 			&ast.CommClause{Comm: nil, Body: nil},
 		}}}
 		pollCases = append(pollCases, &ast.CaseClause{List: []ast.Expr{intLit(i)}, Body: []ast.Stmt{one}})
-	}
-	if nRecv == 0 {
-		return nil
 	}
 	poll := &ast.RangeStmt{Key: id("_"), Value: id(iv), Tok: token.DEFINE, X: r.rtCall("SelectOrder", intLit(site), intLit(len(cases))),
 		Body: &ast.BlockStmt{List: []ast.Stmt{
@@ -1587,22 +1666,33 @@ func (r *rewriter) selectPolled(s *ast.SelectStmt) []ast.Stmt {
 		if c.def {
 			blockCases = append(blockCases, &ast.CommClause{Comm: nil, Body: []ast.Stmt{setSel(i)}})
 		} else {
-			blockCases = append(blockCases, &ast.CommClause{Comm: recv(c.ch), Body: []ast.Stmt{setSel(i)}})
+			blockCases = append(blockCases, &ast.CommClause{Comm: comm(c), Body: []ast.Stmt{setSel(i)}})
 		}
 	}
 	block := &ast.IfStmt{Cond: &ast.BinaryExpr{X: id(sel), Op: token.LSS, Y: intLit(0)}, Body: &ast.BlockStmt{List: []ast.Stmt{&ast.SelectStmt{Body: &ast.BlockStmt{List: blockCases}}}}}
-	// dispatch
+	// dispatch: a receiving case with an assignment binds what was received, now
 	var bodyCases []ast.Stmt
 	for i, c := range cases {
-		bodyCases = append(bodyCases, &ast.CaseClause{List: []ast.Expr{intLit(i)}, Body: c.body})
+		body := c.body
+		if c.assign != nil {
+			rhs := []ast.Expr{id(c.tr)}
+			if len(c.assign.Lhs) == 2 {
+				rhs = append(rhs, id(c.tok))
+			}
+			bind := &ast.AssignStmt{Lhs: c.assign.Lhs, Tok: c.assign.Tok, Rhs: rhs}
+			body = append([]ast.Stmt{bind}, body...)
+		}
+		bodyCases = append(bodyCases, &ast.CaseClause{List: []ast.Expr{intLit(i)}, Body: body})
 	}
 	dispatch := &ast.SwitchStmt{Tag: id(sel), Body: &ast.BlockStmt{List: bodyCases}}
-	return []ast.Stmt{
+	out := append(pre,
 		r.preStmt(h, site, "KSelect"),
 		&ast.AssignStmt{Lhs: []ast.Expr{id(sel)}, Tok: token.DEFINE, Rhs: []ast.Expr{&ast.UnaryExpr{Op: token.SUB, X: intLit(1)}}},
 		poll,
 		block,
 		r.postStmt(h, site),
 		dispatch,
-	}
+	)
+	// (temporaries have fresh names; the dispatch switch stays last so that a label on the select moves to it)
+	return out
 }
